@@ -81,18 +81,24 @@ Definition numeric_field (fmt : str) (i : nat) (v : uval) : ures (str * nat) :=
       match ipart with
       | [] => UIllegal
       | _ =>
-          match v with
-          | UStr _ => UTypeMismatch
-          | UNum text =>
-              match rest with
-              | [] => match fmt_integer_part ipart text with Some r => UOk (r, i') | None => UIllegal end
-              | fpart :: _ =>
-                  match fpart with
-                  | [] => UIllegal
-                  | _ => match fmt_integer_part ipart text with
-                         | Some r => UOk (r ++ c_dot :: repeat 48%Z (length fpart), i')
-                         | None => UIllegal
-                         end
+          (* the picture is checked before the value: a trailing dot is an error even for a string *)
+          match rest with
+          | [] =>
+              match v with
+              | UStr _ => UTypeMismatch
+              | UNum text => match fmt_integer_part ipart text with Some r => UOk (r, i') | None => UIllegal end
+              end
+          | fpart :: _ =>
+              match fpart with
+              | [] => UIllegal
+              | _ =>
+                  match v with
+                  | UStr _ => UTypeMismatch
+                  | UNum text =>
+                      match fmt_integer_part ipart text with
+                      | Some r => UOk (r ++ c_dot :: repeat 48%Z (length fpart), i')
+                      | None => UIllegal
+                      end
                   end
               end
           end
